@@ -301,8 +301,6 @@ func c10Phase2(r *Run, scn Scenario, U []Account, states []*Node, known map[stri
 					// the statement is one-directional ("only when submitted by the holder"); a holder being
 					// refused has some other cause (parameters, another property) and is only recorded
 					r.Truncate("C10: " + tx.Name + " was refused for the holder of " + tx.Role.String() + " in some role state; authorisation of that type is judged only through the non-holders")
-				case auth && len(o.Events) == 0 && HashBytes(post) == HashBytes(n.Dump):
-					r.Violate("C10 authorised transaction had no effect: "+tx.Name, a.Desc, scn.Replay("actions", path))
 				}
 				if i < 2 && tx.Name == "PauseBurningAndMinting" {
 					r.Sample("probe", map[string]any{"roles": m.key(), "tx": a.Desc, "authorised": auth, "observed": o.Class()})
